@@ -705,7 +705,7 @@ class Machine:
             raise Inconclusive('no contract or crate item for call ' + fname)
         self.push_frame(st, it, argv, ret, fname)
 
-    def subst_for(self, it, fname):
+    def subst_for(self, it, fname, argv=None):
         if not fname: return None
         targs, margs = split_generic_args(fname)
         sub = {}
@@ -713,6 +713,10 @@ class Machine:
             iparams, pat = self.idx.impl_generics.get(it.impl_key, ([], []))
             for p_, a_ in zip(pat, targs):
                 if p_ in iparams and a_ != p_: sub[p_] = a_
+            if it.impl_ty in iparams and argv:
+                # blanket impl `impl<E: ..> Trait for E`: the parameter is the receiver's concrete type
+                rt = self.runtime_type(argv[0])
+                if rt: sub[it.impl_ty] = rt
         meth = it.name.split('::')[-1]
         mps = self.idx.fn_generics.get(meth)
         if mps:
@@ -724,7 +728,7 @@ class Machine:
         body = parse_body(it)
         self.items_used.setdefault(it.name, it)
         nf = Frame(it, body)
-        nf.subst = self.subst_for(it, fname)
+        nf.subst = self.subst_for(it, fname, argv)
         for i, a in enumerate(argv): nf.local(i + 1).v = a
         nf.ret = ret
         st.frames.append(nf)
@@ -809,6 +813,7 @@ class Machine:
             else:
                 tyb = strip_generics(xs).replace('&', '').replace('mut ', '').replace("'_ ", '').strip().split('::')[-1]
                 tyb = re.sub(r"^'[a-z_]+ ", '', tyb)
+                if xs.lstrip('&(').startswith('dyn '): tyb = 'dyn ' + tyb.rstrip(')')
             cands = self.idx.impls.get((tyb, tb, meth))
             if cands: return self._pick(cands, fname)
             # dynamic dispatch on the receiver
